@@ -172,6 +172,9 @@ func FromGo(t types.Type) SType {
 		el := FromGo(u.Elem())
 		return SType{K: KSlice, Go: t, Elem: &el, Name: name}
 	case *types.Array:
+		if u.Len() == 0 {
+			return SType{K: KUnit, Go: t, Name: name} // [0]T carries no data (no-copy / no-compare markers)
+		}
 		el := FromGo(u.Elem())
 		return SType{K: KArray, Go: t, Elem: &el, Name: name}
 	case *types.Interface:
